@@ -3,6 +3,8 @@
 // (Trace_Threads.tla) decides.
 //
 //   c18_threads run <out.ndjson> <scratch-dir> <num-instances> <reps> <size 0|1> [workload-list]
+//     workloads: lazy (geometry tables), rows (matrix row cache), proj (forward / back projection), ll (projection-data
+//     log-likelihood), lm (list-mode objective function), scat (single-scatter simulation), io (ProjDataFromStream)
 //
 // For every workload instance (seeded configuration) the driver executes the same public-API calls with
 // fresh objects first with 1 thread (the reference run) and then with several thread counts / perturbation
